@@ -182,7 +182,10 @@ fn add_types_recursive(
     module: &naga::Module,
     ty: Handle<Type>,
 ) {
-    types.insert(ty);
+    // Types that were already visited have their members added already.
+    if !types.insert(ty) {
+        return;
+    }
 
     match &module.types[ty].inner {
         naga::TypeInner::Pointer { base, .. } => add_types_recursive(types, module, *base),
